@@ -147,6 +147,16 @@ CHECKS["C16"] = dict(
     note="Bit-identity via SHA-256 of raw bytes; unscrambled Sobol'/Halton sequences are exempt from the seed-matters clause.",
     design="4 (C16)")
 
+CHECKS["C11"] = dict(
+    text="Transforms.tla in exact rational arithmetic: TLC checks round trip, bound feasibility equivalence, linear-row equivalence "
+         "(offset absorption, column scaling, row equilibration) and back-transformed differences on grids for dyadic scales x offsets "
+         "x bound kinds x rows; every scenario is run twice on a real plan (function + gradient evaluation with injected samples and "
+         "overshoots) without and with variable/objective/constraint transforms; Trace_C11 requires identical evaluator vectors and "
+         "user-domain results (variables, perturbed variables, per-realization values, functions, differences, violations) and checks "
+         "the transformed configuration (bounds, linear row, magnitudes) against the spec.",
+    note="Dyadic parameters; gradients excluded (reported in optimizer coordinates); objective/constraint scalers are harness classes on ropt's public base classes.",
+    design="4 (C11)")
+
 NOT_APPLICABLE = {}
 
 def main():
